@@ -59,6 +59,15 @@ def generate(rng, tier):
         slow = sorted(truth)[0]
         rules.append({"start_db_prefix": clifam.case_name(slow) + "_", "linger_ms": ms})
         cases.append({"files": files, "rules": rules, "truth": truth, "info": info, "jobs": 2, "keep": False, "meta": {"pattern": "slow-close"}})
+    # sessions of one file whose ends depend on each other (either way round): closing them one after the other would never finish
+    for role in ["first", "later"]:
+        files = [["t/pair_%s.slt" % role, "control substitution on\n\nstatement ok\nselect F80_1 $__DATABASE__\n\nconnection holder\nstatement ok\nselect F80_2 $__DATABASE__\n\n"
+                  "connection another\nstatement ok\nselect F80_3 $__DATABASE__\n\n"],
+                 ["t/solo_%s.slt" % role, "control substitution on\n\nstatement ok\nselect F81_1 $__DATABASE__\n\n"]]
+        truth = {f[0]: "ok" for f in files}
+        info = {files[0][0]: {"tag": "F80", "kind": "pass", "nrec": 3, "latency": 0}, files[1][0]: {"tag": "F81", "kind": "pass", "nrec": 1, "latency": 0}}
+        rules = [{"start_db_prefix": clifam.case_name(files[0][0]) + "_", "eof_wait_peer": role}]
+        cases.append({"files": files, "rules": rules, "truth": truth, "info": info, "jobs": 2, "keep": False, "meta": {"pattern": "dependent-close"}})
     return cases
 
 
